@@ -21,4 +21,10 @@ compare-and-swap loop (no plain store, no single unchecked swap): concurrent cal
 the started-leading callback — cannot lower either counter nor lose the start revision. -/
 theorem tso_commit_only_raises : tsoCommitOnlyRaises = true := by decide
 
+/-- C18 / C15: the peer `/status` handler reads the revision it reports AFTER it has seen the leader flag raised. With
+`revision_installed_before_leader_flag` this is why a follower is never told a pre-promotion revision by a node that answers
+as the leader: whatever request overlaps `OnStartedLeading` is answered 400 or with a revision at or above the election
+timestamp. (The role model answers `/status` atomically; this fact is the tie for that atomicity.) -/
+theorem status_reads_revision_after_leader_flag : statusReadsRevisionAfterLeaderFlag = true := by decide
+
 end KB.OrderC15
